@@ -20,7 +20,7 @@ LEVEL = 'exploration'
 RULE = ('Runs are (a) setter-history machines: 3-30 ops from {set gamma, set gbEnergy, set site type (5 kinds, by name), read GBk/areaFactor/volumeFactor/gbRemoval/areaRemoval, '
         'Rcrit(dG), Gcrit(dG,R)} on a NucleationBarrierParameters or a PrecipitateParameters object, each read compared with a fresh twin and with the reference Clemm-Fisher formulas '
         'and identities; (b,c) precipitation worlds (stub 1-3 phases with all site types and parent-phase nucleation, real Al-Zr) with a tap on _calcNucleationSites and per-step checks '
-        'of Rcrit, Gcrit, impingement, rate, incubation factor. At every seventh visited nucleating state the rate functions themselves are called (zeldovich, incubationTime, nucleationRate at five times and at infinity, scalar and array form): factor in [0,1], rising with time, steady-state limit. Non-trivial = at least 3 reads after a setter (a) or at least 5 steps with positive driving force (b,c); '
+        'of Rcrit, Gcrit, impingement, rate, incubation factor. At every seventh visited nucleating state the rate functions themselves are called (zeldovich, incubationTime, nucleationRate at five times and at infinity, scalar and array form): factor in [0,1], rising with time, steady-state limit. Machine ops include array-vs-scalar reads of the description functions; a third of the multi-phase runs put every phase on one site type; grain-boundary energy 0 is generated. Non-trivial = at least 3 reads after a setter (a) or at least 5 steps with positive driving force (b,c); '
         'distinct = distinct record digest; signature = (kind, site types used, events).')
 ASSUMPTIONS = ['k values and driving forces are those the machines/runs visit (sample, not sweep); monotonicity of the steady-state rate in the driving force is checked along isothermal trajectories only.',
                'Total site densities N0 are taken from the model (configuration); asserted: available sites >= 0, <= N0 + parent-surface sites, equal to N0 - occupied for single-phase runs (independent occupancy formulas), and non-increasing while every phase\'s occupancy moments grow.',
